@@ -528,7 +528,8 @@ class Scalar(Parametrized):
 
     def dagger(self):
         return self if self._dagger is None\
-            else Scalar(self.array[0].conjugate())
+            else Scalar(self.array[0].conjugate(),
+                        name=self._name, is_mixed=self.is_mixed)
 
 
 class MixedScalar(Scalar):
@@ -546,6 +547,10 @@ class Sqrt(Scalar):
     @property
     def array(self):
         return [self.data ** .5]
+
+    def dagger(self):
+        return self if self._dagger is None\
+            else Sqrt(self.data.conjugate())
 
 
 SWAP = Swap(qubit, qubit)
